@@ -113,7 +113,7 @@ def spawn_shards(mod, prop, tier, seed, repo, plan, scratch_root, mode="run", re
 
 
 def aggregate(results):
-    agg = {"evaluations": 0, "trivial": 0, "sigs": set(), "sig_overflow": 0, "classes": {}, "monitors": {},
+    agg = {"evaluations": 0, "trivial": 0, "distinct_by_construction": 0, "sigs": set(), "sig_overflow": 0, "classes": {}, "monitors": {},
            "reach": {}, "validators": {"entered": {}, "raised": {}}, "violations": [],
            "violation_count": 0, "violation_keys": {}, "samples": [], "notes": {}, "notes_by_shard": [],
            "inconclusive": [], "hashseeds": [], "audit_events": 0, "harvest": {}, "shard_wall": [],
@@ -130,6 +130,7 @@ def aggregate(results):
         agg["hashseeds"].append(r["hashseed"])
         agg["evaluations"] += res["evaluations"]
         agg["trivial"] += res.get("trivial", 0)
+        agg["distinct_by_construction"] += res.get("distinct_by_construction", 0)
         agg["sigs"].update(res["sigs"])
         agg["sig_overflow"] += res.get("sig_overflow", 0)
         for k, v in res["classes"].items():
@@ -313,7 +314,7 @@ def conclude(mod, prop, tier, seed, repo, plan, agg, t0, write_evidence=True):
     if agg["evaluations"] <= 0:
         inconclusive.append("no case was evaluated")
 
-    distinct = len(agg["sigs"])
+    distinct = len(agg["sigs"]) + agg["distinct_by_construction"]
 
     # ---- violations vs known findings ------------------------------------
     new = [v for v in agg["violations"] if v.get("key") not in known]
